@@ -682,7 +682,11 @@ func replay(args []string) int {
 			jb, _ := json.Marshal(o.run.Evs[i])
 			fmt.Println(string(jb))
 		}
-		fmt.Fprintln(os.Stderr, tail(o.run.Stderr, 4000))
+		n := 4000
+		if os.Getenv("VERIF_DUMP_AT_END") != "" {
+			n = 400000
+		}
+		fmt.Fprintln(os.Stderr, tail(o.run.Stderr, n))
 	}
 	if short {
 		re := regexp.MustCompile(filter)
